@@ -15,7 +15,11 @@
   whose body pops exactly once, with `popleft`, under `_cv`, after the shutdown test, and calls the handlers later in the
   same iteration, outside `_cv`, not from a nested function;
 * the fifo is only ever `append`ed to (in `push_rpc_request`) and `popleft`ed (in `run` and `_reject_remaining_requests`);
-* `push_rpc_request` is called only by `RpcObjectManager.handle_message`, under `_stop_lock`, after the `_running` test.
+* `push_rpc_request` is called only by `RpcObjectManager.handle_message`, under `_stop_lock`, after the `_running` test;
+* the proxy never hands out anything that could be the object: `QMI_RpcProxy.__enter__` returns `self` (the proxy) and
+  nothing else, every generated method of the two proxy classes is one lambda forwarding to `blocking_rpc_method_call` /
+  `non_blocking_rpc_method_call`, and every other method of `QMI_RpcProxy` returns a constant, a comparison or a text.
+  (What a *method of the object* returns is passed by reference inside one context — that is C02's subject.)
 
 Core Lean only.
 -/
@@ -40,6 +44,9 @@ structure CodeShape where
   noNestedScope : Bool
   shutdownCheckedBeforePop : Bool
   handlerCallsInRun : Nat
+  proxyEnterReturns : List String
+  proxyForwardTargets : List (String × String)
+  proxyOtherReturns : List (String × String)
   deriving Repr
 
 def CodeShape.ok (c : CodeShape) : Bool :=
@@ -60,5 +67,9 @@ def CodeShape.ok (c : CodeShape) : Bool :=
   && c.popsInLoop == 1 && c.popKinds == ["popleft"] && c.popsUnderCv && c.popsInLoopBody
   && c.handlersAfterPopSameIteration && c.handlersNotUnderCv && c.noNestedScope && c.shutdownCheckedBeforePop
   && c.handlerCallsInRun == 2
+  && c.proxyEnterReturns == ["self"]
+  && c.proxyForwardTargets == [("QMI_RpcProxy", "blocking_rpc_method_call"),
+                               ("QMI_RpcNonBlockingProxy", "non_blocking_rpc_method_call")]
+  && c.proxyOtherReturns.all (fun p => p.2 == "const" || p.2 == "compare" || p.2 == "text")
 
 end QmiModel.Pipeline
